@@ -54,6 +54,8 @@ Qed.
 Print Assumptions C20_is_monotonic.
 
 (* ---- time windows -> sample indices ---- *)
+(* (the first conjunct only unfolds the model — tw_numpy IS "convert the insertion-sorted list"; the content is in the other
+   three: that list is sorted by begin, a permutation of the input, and the resulting sample begins are sorted) *)
 Theorem C20_windows_sorted_by_begin : forall sr ws,
   tw_numpy sr ws = map (conv sr) (sort_w ws)
   /\ Sorted (fun a b => fst a <= fst b) (sort_w ws) /\ Permutation (sort_w ws) ws
@@ -374,7 +376,7 @@ Proof. exact grid_time_monotone. Qed.
 Print Assumptions C20_grid_time_monotone.
 
 Theorem C20_grid_edge_side : forall rate j k, (0 < rate)%Q -> (0 <= k)%Z -> (0 <= j < 2 ^ 52)%Z ->
-  (bpow radix2 (-1022) <= IZR j / Q2R rate)%R ->
+  ((0 < j)%Z -> (bpow radix2 (-1022) <= IZR j / Q2R rate)%R) ->      (* the edge time is no subnormal number; j = 0 is included *)
   ((b64 (inject_Z j / rate) <= grid_time rate k)%Q <-> (j <= k)%Z).
 Proof. exact grid_edge_side. Qed.
 Print Assumptions C20_grid_edge_side.
@@ -386,3 +388,9 @@ Theorem C20_sample_times_meets_spec : forall rate durs,
   spec_times rate durs (sample_times rate durs) = true.
 Proof. exact sample_times_meets_spec. Qed.
 Print Assumptions C20_sample_times_meets_spec.
+
+(* ---- round 5: non-vacuity.  ProofsWitness.v holds, for every theorem above that has hypotheses, a concrete non-trivial input
+        satisfying all of them (code_nonvacuous, in_range_nonvacuous, shrink_nonvacuous, avg_hyps_nonvacuous,
+        sample_times_nonvacuous, window_float_nonvacuous, window_exact_nonvacuous, store16_nonvacuous, float_hyps_nonvacuous,
+        float_no_halfway_nonvacuous, grid_edge_hyps_nonvacuous); required here so that it is re-checked with every build ---- *)
+Require QV.C20.ProofsWitness.
